@@ -20,6 +20,8 @@ Pipeline (model-based; the TLA+ specification decides) -- shares its machinery w
      The same probe binds the (t, y) arguments of every stage of the shortened step incl. the dense-only stages (DOP853 14-16), relative to
      the start of THAT step.  Time-dependent sanity probe: y_k' = t^k on a three-step run (0.5, 0.5, 0.3): interpolant and state must
      reproduce t^(k+1)/(k+1) for k + 1 <= q (numeric allowance 32 ulp of |xend|^(k+1)); catches stale abscissae generally.
+     Sparse-output probes: low-level builders with dense_output(false) and a SolOut answering ControlFlag::XOut(x0 +- 1.15 | 0.5) on the same
+     two-step run: every interpolant handed out must be the same b_j(theta) polynomial as with dense_output(true).
   4. Each extracted value is compared with the specification's polynomial evaluated exactly at theta (driver: exact rational
      distance in ulps of the evaluation scale; TLC: contract dist <= 16 on every record, spec/tableaux/Trace_Tableau.tla).
 """
@@ -127,34 +129,37 @@ def facts_from_landing_dense(facts, job, rec):
     """The interpolant of the SECOND, shortened step of a two-step run (callback interpolant / Solution::sol), evaluated at points
     placed on the ACTUAL step [x_1, x_2]: component comp(j) must be y_1 + h_2 b_j(theta), every other component stays y_1, and the
     value at x_2 must reproduce the state."""
-    m, dn, d, dense = job["method"], job["dirname"], job["dir"], job["dense"]
+    m, dn, dense = job["method"], job["dirname"], job["dense"]
     via = "land" if job["api"] == "lowlevel" else "land/solve_ivp"
-    t = tg.tab(m)
     g = base.landing_geometry(job, rec)
     if isinstance(g, str):
         facts.add(m, "land_run", dn, via, CAP, 0, got=g, want="two completed steps")
         return
-    x1, y1, x2, y2 = g
-    h2 = F(x2) - F(x1)
     if job["api"] == "lowlevel":
         evs = [e for e in rec["solout"] if untok(e["x"]) != 0.0]
         if not evs[1]["has_interp"]:
             facts.add(m, "land_interpolant", dn, via, CAP, 0, got="no interpolant for the second step", want="an interpolant")
             return
-        dense_pts = evs[1]["dense"]
-        ih = evs[1].get("interp_h")
-        extra = " [the interpolant was built with h = %r, the step is %r long]" % (untok(ih), float(h2)) if ih and untok(ih) != float(h2) else ""
+        dense_pts, ih = evs[1]["dense"], evs[1].get("interp_h")
     else:
-        dense_pts = rec["sol"]["dense"]
-        extra = ""
+        dense_pts, ih = rec["sol"]["dense"], None
+    step2_interp_facts(facts, m, dn, via, "land", dense, dense, g, dense_pts, ih)
+
+
+def step2_interp_facts(facts, m, dn, via, prefix, dense1, dense2, g, dense_pts, ih):
+    """dense1 / dense2: whether step 1 / step 2 computed the dense-only stages (DOP853 14-16)."""
+    t = tg.tab(m)
+    x1, y1, x2, y2 = g
+    h2 = F(x2) - F(x1)
+    extra = " [the interpolant was built with h = %r, the step is %r long]" % (untok(ih), float(h2)) if ih and untok(ih) != float(h2) else ""
     if len(dense_pts) != len(LAND_THETAS):
-        facts.add(m, "land_points", dn, via, CAP, 0, got="%d evaluation points" % len(dense_pts), want=len(LAND_THETAS))
+        facts.add(m, prefix + "_points", dn, via, CAP, 0, got="%d evaluation points" % len(dense_pts), want=len(LAND_THETAS))
         return
-    stage_of = {base.comp(m, dense, j): j for j in range(1, base.last_stage(m, dense) + 1)}
+    stage_of = {base.comp(m, dense1, j): j for j in range(1, base.last_stage(m, dense2) + 1)}
     for e, name in zip(dense_pts, LAND_NAMES):
         xi = untok(e["xi"])
         if "y" not in e:
-            facts.add(m, "land_sol@%s" % name, dn, via, CAP, 0, got=e.get("error") or e.get("panic"), want="a value at x=%r" % xi)
+            facts.add(m, "%s_sol@%s" % (prefix, name), dn, via, CAP, 0, got=e.get("error") or e.get("panic"), want="a value at x=%r" % xi)
             continue
         th = (F(xi) - F(x1)) / h2
         ys = [untok(v) for v in e["y"]]
@@ -166,14 +171,67 @@ def facts_from_landing_dense(facts, job, rec):
                 continue
             exact, scale = t.bth(j, th)
             want = F(y1[q - 1]) + h2 * exact
-            facts.add(m, "land_bth_%d@%s" % (j, name), dn, via, abs_dist(ys[q - 1], want, max(abs(F(y1[q - 1])), abs(h2) * scale)), BOUND,
+            facts.add(m, "%s_bth_%d@%s" % (prefix, j, name), dn, via, abs_dist(ys[q - 1], want, max(abs(F(y1[q - 1])), abs(h2) * scale)), BOUND,
                       got=ys[q - 1], want="y_1 + h_2 b_%d(%s) = %.17g" % (j, name, float(want)), note=("at x = %r of the step [%r, %r]" % (xi, x1, x2)) + extra)
-        facts.add(m, "land_carry@%s" % name, dn, via, carry, BOUND, got="a component that no stage of step 2 feeds moved by %s ulp" % carry,
+        facts.add(m, "%s_carry@%s" % (prefix, name), dn, via, carry, BOUND, got="a component that no stage of step 2 feeds moved by %s ulp" % carry,
                   want="components of step 1 keep the value y_1", note=extra or None)
         if xi == x2:
             end = max(abs_dist(ys[q - 1], F(y2[q - 1]), abs(F(y2[q - 1]))) for q in range(1, len(ys) + 1))
-            facts.add(m, "land_end", dn, via, end, BOUND, got="interpolant(x_2) differs from the state by %s ulp" % (">= 2e9" if end >= CAP else end),
+            facts.add(m, prefix + "_end", dn, via, end, BOUND, got="interpolant(x_2) differs from the state by %s ulp" % (">= 2e9" if end >= CAP else end),
                       want="interpolant(x_new) reproduces the state", note=extra or None)
+
+
+# ---- sparse output: low-level builder with dense_output(false), output points scheduled through ControlFlag::XOut
+SPARSE_XOUTS = (1.15, 0.5)        # inside the second resp. the first step of the two-step (1, 0.3) run
+
+
+def sparse_jobs(methods):
+    jobs = []
+    for m in methods:
+        for dn, d in base.DIRS:
+            for xo in SPARSE_XOUTS:
+                # room for the dense-only stages in both steps (DOP853 computes them on the steps for which it hands out an interpolant)
+                jobs.append({"id": f"sparse/{m}/{dn}/{xo}", "kind": "sparse", "api": "lowlevel", "method": m, "dir": d, "dirname": dn,
+                             "dim": 1 + 2 * base.n_step(m, True), "resp": "unit", "atol": [tok(1e300)], "rtol": tok(0.0),
+                             "span": tok(base.LAND_SPAN), "max_step": tok(1.0), "dense": False, "xout": tok(d * xo), "xo": xo,
+                             "thetas": [tok(x) for x in LAND_THETAS]})
+    return jobs
+
+
+def facts_from_sparse(facts, job, rec):
+    """Every interpolant the solver hands out in sparse mode (dense_output(false) + XOut) must be the SAME polynomial as with
+    dense_output(true): b_j(theta) of the tableau on the step it belongs to.  Returns the number of interpolants seen."""
+    m, dn, d = job["method"], job["dirname"], job["dir"]
+    via = "sparse/xout=%s" % job["xo"]
+    t = tg.tab(m)
+    g = base.landing_geometry(job, rec)
+    if isinstance(g, str):
+        facts.add(m, "sparse_run", dn, via, CAP, 0, got=g, want="two completed steps")
+        return 0
+    x1, y1, x2, y2 = g
+    evs = [e for e in rec["solout"] if untok(e["x"]) != 0.0]
+    d1, d2 = evs[0]["has_interp"], evs[1]["has_interp"]
+    n = 0
+    if d1:
+        n += 1
+        pts = evs[0]["dense"]
+        for e, name in zip(pts, LAND_NAMES):
+            th = F(untok(e["xi"])) / F(x1)
+            ys = [untok(v) for v in e["y"]]
+            for q in range(1, len(ys) + 1):
+                if q <= base.last_stage(m, True):
+                    exact, scale = t.bth(q, th)
+                else:
+                    exact, scale = F(0), F(0)
+                if q > base.last_stage(m, True) and ys[q - 1] == 0:
+                    continue
+                facts.add(m, "sparse1_bth_%d@%s" % (q, name), dn, via, abs_dist(ys[q - 1], F(x1) * exact, abs(F(x1)) * scale), BOUND,
+                          got=ys[q - 1], want="h_1 b_%d(%s) = %.17g" % (q, name, float(F(x1) * exact)),
+                          note="interpolant of step 1 handed out with dense_output(false) after XOut(%r)" % (d * job["xo"]))
+    if d2:
+        n += 1
+        step2_interp_facts(facts, m, dn, via, "sparse2", d1, True, g, evs[1]["dense"], evs[1].get("interp_h"))
+    return n
 
 
 # ---- time-dependent sanity probe: y_k' = t^k on a three-step run (steps 0.5, 0.5, 0.3)
@@ -253,9 +311,11 @@ def run(tier, seed, replay=None, keep=False):
                 th = float(F(th)) if "/" in th else float(th)
                 if th not in thetas:
                     thetas.append(th)
-        jobs = base.unit_jobs(methods, thetas) + base.landing_jobs(methods, LAND_THETAS, apis=("lowlevel", "solve_ivp")) + poly_jobs(methods)
+        jobs = (base.unit_jobs(methods, thetas) + base.landing_jobs(methods, LAND_THETAS, apis=("lowlevel", "solve_ivp")) + poly_jobs(methods)
+                + sparse_jobs(methods))
         recs = base.run_probe(jobs, work, "c07")
         facts = Facts(PROP)
+        sparse_seen = {}
         for j in jobs:
             if j["kind"] == "land":
                 # stage abscissae and weights of the shortened step incl. the dense-only stages (DOP853 14-16), then its interpolant
@@ -265,9 +325,17 @@ def run(tier, seed, replay=None, keep=False):
             if j["kind"] == "poly":
                 facts_from_poly(facts, j, recs[j["id"]])
                 continue
+            if j["kind"] == "sparse":
+                key = (j["method"], j["dirname"])
+                sparse_seen[key] = sparse_seen.get(key, 0) + facts_from_sparse(facts, j, recs[j["id"]])
+                continue
             # the continuous order conditions are about (c, A, b(theta)) jointly: bind c_i, a_ij, b_j too (same records as C02)
             base.facts_from_unit_run(facts, j, recs[j["id"]])
             facts_from_dense(facts, j, recs[j["id"]])
+        for (m, dn), cnt in sorted(sparse_seen.items()):
+            # which step gets the interpolant is the callback protocol's business (C19); here: the mode was exercised at all
+            facts.add(m, "sparse_interpolants", dn, "sparse", 0 if cnt else CAP, 0, got="%d interpolants handed out over the XOut schedules %s" % (cnt, SPARSE_XOUTS),
+                      want="at least one interpolant in sparse-output mode")
         drift = []
         nsrc = 0
         for m in methods:
